@@ -452,6 +452,37 @@ func c14ServerHeader(c *core.Ctx, hc handlerClosure) string {
 		c.Check(core.MustPass(core.Entry(fn), rc, func(in ssa.Instruction) bool { return in == setCall }),
 			name+":header-before-renderer", setCall.Pos(), "status header "+key+" is set on every path to the renderer (a renderer that writes nothing still transmits it)",
 			"the renderer can run without the status header "+key+" having been set")
+		// ... and a failed call is answered in no other way: once the handler has returned an error, every way out
+		// of the HTTP handler passes the status header (a reply made up on the side — a bare 499 because the request
+		// context happens to be done — carries neither the code nor the renderer's mapping)
+		if setCall.Parent() == fn {
+			hcalls := handlerInvocations(fn)
+			bare := token.NoPos
+			fromHandler := func(v ssa.Value) bool {
+				return v != nil && core.OriginIs(v, func(o ssa.Value) bool { return isErrResultOf(o, hcalls) })
+			}
+			// not followed: edges on which the handler's error is known to be nil (the success path)
+			notSuccess := func(b *ssa.BasicBlock, si int) bool {
+				iff, isIf := b.Instrs[len(b.Instrs)-1].(*ssa.If)
+				if !isIf {
+					return true
+				}
+				f := core.CondFact(iff.Cond, si == 0)
+				return !(f.Op == token.EQL && f.Y != nil && core.IsNilConst(f.Y) && fromHandler(f.X))
+			}
+			for _, hcI := range hcalls {
+				reach := core.Walk(core.After(hcI), func(x ssa.Instruction) bool { return x == ssa.Instruction(setCall) }, notSuccess)
+				for _, r := range core.Returns(fn) {
+					if reach[r] {
+						bare = r.Pos()
+						if !bare.IsValid() {
+							bare = hcI.Pos()
+						}
+					}
+				}
+			}
+			c.Check(bare == token.NoPos, name+":every-failure-carries-the-status-header", setCall.Pos(), "every exit after the handler failed passes the status header", "after the handler returned an error the HTTP handler can reply and return without the status header "+key+" (and without the renderer): the caller gets whatever code the bare HTTP status maps back to")
+		}
 		// value
 		val := setCall.Call.Args[2]
 		ok := false
